@@ -20,7 +20,7 @@ Definition absst (s : state) : sstate := map abs_ping (pings s).
    frames without a notification and the compressed failed calls are invisible to the reference *)
 Definition absev (s : state) (e : event) : sevent :=
   match e with
-  | Begin p =>
+  | Begin p _ =>
       if table_full (tbl s) then SRefuse p (next s)
       else match alloc (tbl s) (next s) with Some i => SBegin p i | None => SOther end
   | Sent p true => SOther
@@ -28,6 +28,7 @@ Definition absev (s : state) (e : event) : sevent :=
   | BulkFail _ => SOther
   | Notify i => SReply i
   | Skip => SOther
+  | Tick _ => SOther
   | Timeout _ => SOther
   | End p => SEnd p
   end.
